@@ -374,7 +374,13 @@ impl ShardCtx {
                 f.limits.clear();
             }
         }
-        let excludes = findings.excludes(property);
+        let mut excludes = findings.excludes(property);
+        if let Ok(allow) = std::env::var("VERIF_ALLOW") {
+            // harvesting mode (never used by registered commands): re-enable single feature tags
+            for t in allow.split(',') {
+                excludes.remove(t.trim());
+            }
+        }
         ShardCtx {
             property,
             tier,
